@@ -47,6 +47,9 @@ func c15Check(t failer, test string, in []byte) (bool, map[string]int) {
 	want := refparse.Parse(in)
 	var got interface{}
 	var err error
+	// the language does not depend on what was parsed before: precede every parse by a small
+	// budgeted one, so that parser state surviving between calls would show
+	grammar.Parse("", []byte("a == 1"), grammar.MaxExpressions(600))
 	func() {
 		defer func() {
 			if r := recover(); r != nil {
